@@ -96,7 +96,7 @@ pub open spec fn prim_spec(d: Img, i: ColorPrimaries, o: ColorPrimaries) -> Img 
 pub open spec fn rgb_wf(r: Rgb) -> bool { r.data@.len() == r.width * r.height && r.width * r.height <= usize::MAX }
 pub open spec fn lrgb_wf(r: LinearRgb) -> bool { r.data@.len() == r.width * r.height && r.width * r.height <= usize::MAX }
 pub open spec fn enc_cfg_ok(c: YuvConfig, w: usize, h: usize) -> bool {
-    c.subsampling_x < 64 && c.subsampling_y < 64 && 8 <= c.bit_depth <= 16 && (w + 64) * h <= usize::MAX
+    c.subsampling_x < 64 && c.subsampling_y < 64 && 8 <= c.bit_depth <= 16 && (w + 128) * h <= usize::MAX && w + 128 <= usize::MAX && (w > 0 || h == 0)
 }
 '''
 
